@@ -112,6 +112,7 @@ func (m *Model) node(id int, r *ModelRun) (action string, errID string) {
 		return fmt.Sprintf("%d.%d.%s.%d", id, v, phase, att)
 	}
 	r.Keys = append(r.Keys, key("prep", 0))
+	m.mid(id, v, "prep")
 	if sc.PrepErr {
 		return "", errID2(id, v, "prep", 0)
 	}
@@ -120,6 +121,7 @@ func (m *Model) node(id int, r *ModelRun) (action string, errID string) {
 			r.Keys = append(r.Keys, key("item", 1), key("item", 2))
 		}
 		r.Keys = append(r.Keys, key("post", 0))
+		m.mid(id, v, "post")
 		m.log = append(m.log, fmt.Sprint(id))
 		if sc.PostErr {
 			return "", errID2(id, v, "post", 0)
@@ -134,6 +136,9 @@ func (m *Model) node(id int, r *ModelRun) (action string, errID string) {
 	last := 0
 	for j := 1; j <= n; j++ {
 		r.Keys = append(r.Keys, key("exec", j))
+		if j == 1 {
+			m.mid(id, v, "exec")
+		}
 		last = j
 		if j >= sc.FirstOK {
 			ok = true
@@ -151,6 +156,7 @@ func (m *Model) node(id int, r *ModelRun) (action string, errID string) {
 		}
 	}
 	r.Keys = append(r.Keys, key("post", 0))
+	m.mid(id, v, "post")
 	m.log = append(m.log, fmt.Sprint(id))
 	if sc.PostErr {
 		return "", errID2(id, v, "post", 0)
@@ -161,12 +167,25 @@ func (m *Model) node(id int, r *ModelRun) (action string, errID string) {
 	return sc.Post, ""
 }
 
+// mid applies the Connect calls a callback makes while the flow is running.
+func (m *Model) mid(node, visit int, phase string) {
+	for _, mc := range m.sc.MidConnect {
+		if mc.Node == node && mc.Visit == visit && mc.Phase == phase {
+			if m.extra == nil {
+				m.extra = map[int][]Conn{}
+			}
+			m.extra[mc.Flow] = append(m.extra[mc.Flow], mc.Conn)
+		}
+	}
+}
+
 func errID2(node, visit int, phase string, attempt int) string {
 	return errID(node, visit, phase, attempt)
 }
 
 func (m *Model) flow(id int, f *FlowSpec, r *ModelRun) (string, string) {
-	// last Connect per (from, action) wins
+	// last Connect per (from, action) wins; the table is consulted when the node has finished (Connect calls
+	// made meanwhile count)
 	type k struct {
 		from   int
 		action string
@@ -175,9 +194,14 @@ func (m *Model) flow(id int, f *FlowSpec, r *ModelRun) (string, string) {
 	for _, c := range f.Conns {
 		table[k{c.From, c.Action}] = c.To
 	}
-	for _, c := range m.extra[id] {
-		table[k{c.From, c.Action}] = c.To
+	applied := 0
+	sync := func() {
+		ex := m.extra[id]
+		for ; applied < len(ex); applied++ {
+			table[k{ex[applied].From, ex[applied].Action}] = ex[applied].To
+		}
 	}
+	sync()
 	cur := f.Start
 	last := ""
 	for cur >= 0 {
@@ -190,6 +214,7 @@ func (m *Model) flow(id int, f *FlowSpec, r *ModelRun) (string, string) {
 			return "", e
 		}
 		last = act
+		sync()
 		to, ok := table[k{cur, act}]
 		if !ok {
 			break
